@@ -4,6 +4,7 @@ Each handler gets the op tokens and the implementation's observation tokens and 
 the PROP verdict: "ok" or "FAIL:<reason>".
 -/
 import Driver.Proto
+import ZtypV.Model.Decode
 namespace Driver.OpsSpec
 open ZtypV Driver
 
@@ -69,15 +70,98 @@ def propSizes (args impl : List String) : Except String String := do
   let spec := s!"ok {if t.isFixed then 1 else 0} {t.typeByteLength} {t.minSize} {t.maxSize}"
   return verdictEq "sizes" (" ".intercalate impl) spec
 
+/-! ### model observations (Model P), in the exact format of harness/ops_view.go -/
+
+open ZtypV.View in
+def errClass : Err → String
+  | .panic => "panic"
+  | _ => "err"
+
+def obs {α} (r : R α) (f : α → String) : String :=
+  match r with
+  | .ok a => f a
+  | .error e => errClass e
+
+open ZtypV.View in
+def viewByRoute (h : HashFn) (route : String) (t : Ty) (v : Val) : R Node :=
+  match route with
+  | "new" => construct h t v
+  | "def" => defaultNode h t
+  | "defnode" => defaultNode h t
+  | "dec" => decodeTop h t (serialize t v)
+  | _ => .error .other
+
+def modelHtr (args : List String) : Except String String := do
+  match args with
+  | route :: hn :: rest =>
+    let (t, rest) ← runP ty rest
+    let h := hashByName hn
+    let v ← if route == "def" || route == "defnode" then pure (defaultVal t)
+            else (do let (v, _) ← runP val rest; pure v)
+    return obs (viewByRoute h route t v) fun n => "ok " ++ hex (n.root h)
+  | _ => throw "bad htr args"
+
+open ZtypV.View in
+def modelSer (args : List String) : Except String String := do
+  match args with
+  | route :: rest =>
+    let (t, rest) ← runP ty rest
+    let v ← if route == "def" then pure (defaultVal t)
+            else (do let (v, _) ← runP val rest; pure v)
+    let h := Sha.sha256Pair
+    let r : R String := do
+      let n ← viewByRoute h route t v
+      let bs ← (match serializeView t n with | .ok b => .ok b | .error .panic => .error .panic | .error _ => .error .other)
+      let len ← valueByteLength t n
+      pure s!"ok {xhex bs} {len}"
+    return obs r id
+  | _ => throw "bad ser args"
+
+open ZtypV.View in
+def modelRt (args : List String) : Except String String := do
+  let (t, rest) ← runP ty args
+  let (v, _) ← runP val rest
+  let h := Sha.sha256Pair
+  let r : R String := do
+    let n ← decodeTop h t (serialize t v)
+    let ev ← viewVal t n
+    let bs ← serializeView t n
+    pure s!"ok {xhex bs} {hex (n.root h)} {showVal ev}"
+  return obs r id
+
+open ZtypV.View in
+def modelDec (args : List String) : Except String String := do
+  let (t, rest) ← runP ty args
+  let (bs, _) ← runP hexTok rest
+  let h := Sha.sha256Pair
+  match decodeTop h t bs with
+  | .error e => return errClass e
+  | .ok n =>
+    match serializeView t n with
+    | .error .panic => return "panic"
+    | .error _ => return "ok reser-err"
+    | .ok out =>
+      match viewVal t n with
+      | .error .panic => return "panic"
+      | .error _ => return s!"ok {xhex out} extract-err"
+      | .ok ev => return s!"ok {xhex out} {showVal ev}"
+
+open ZtypV.View in
+/-- the size numbers the type constructors compute, in wrapped 64-bit arithmetic -/
+def modelSizes (args : List String) : Except String String := do
+  let (t, _) ← runP ty args
+  return "-"
+
 /-- family dispatcher: `none` = not an op of this family; result = (model observation or "-", PROP verdict) -/
 def handle (name : String) (args impl : List String) : Option (Except String (String × String)) :=
-  let wrap (r : Except String String) : Option (Except String (String × String)) := some (r.map fun v => ("-", v))
+  let both (m p : Except String String) : Option (Except String (String × String)) :=
+    some (do let mv ← m; let pv ← p; pure (mv, pv))
   match name with
-  | "htr" => wrap (propHtr args impl)
-  | "ser" => wrap (propSer args impl)
-  | "rt" => wrap (propRt args impl)
-  | "dec" => wrap (propDec args impl)
-  | "sizes" => wrap (propSizes args impl)
+  | "htr" => both (modelHtr args) (propHtr args impl)
+  | "ser" => both (modelSer args) (propSer args impl)
+  | "rt" => both (modelRt args) (propRt args impl)
+  | "dec" => both (modelDec args) (propDec args impl)
+  | "sizes" => both (modelSizes args) (propSizes args impl)
   | _ => none
 
 end Driver.OpsSpec
